@@ -29,6 +29,9 @@ import (
 const workerEnv = "VERIF_C18_WORKER"
 
 func TestMain(m *testing.M) {
+	// allocation sites are read from the memory profile: sample finely enough that an
+	// allocation of 1 MiB is (practically) always in it (also in native-fuzz workers)
+	runtime.MemProfileRate = 64 << 10
 	if os.Getenv(workerEnv) == "1" {
 		workerMain()
 		return
@@ -46,7 +49,6 @@ func asLimitBytes() uint64 {
 
 func workerMain() {
 	runtime.GOMAXPROCS(2)
-	runtime.MemProfileRate = 64 << 10 // so that an allocation of 1 MiB is (practically) always in the profile
 	hello := byte('R')
 	lim := asLimitBytes()
 	if err := syscall.Setrlimit(syscall.RLIMIT_AS, &syscall.Rlimit{Cur: lim, Max: lim}); err != nil {
